@@ -1,12 +1,337 @@
 import FatVerif.Model.Util
 import FatVerif.Model.Basic
-/-! pure-probe driver for suite `Time` — STUB, to be replaced (see /verif/ARCH.md). -/
+import FatVerif.Model.Time
+import FatVerif.Model.DirEntry
+/-!
+# pure-probe driver for suite `time` (generator: `/verif/harness/src/pure_time.rs`)
+
+Probe lines (all numbers decimal, byte strings lower-case hex, see ARCH.md):
+
+```
+P time.date_encode <y> <m> <d>            => <raw> | PANIC           fatfs::verif::date_encode (Date::new + encode)
+P time.date_decode <raw>                  => <y> <m> <d>             fatfs::verif::date_decode
+P time.time_encode <h> <mi> <s> <ms>      => <raw> <hi> | PANIC      fatfs::verif::time_encode (Time::new + encode)
+P time.time_decode <raw> <hi>             => <h> <mi> <s> <ms>       fatfs::verif::time_decode
+P time.date_rt <y> <m> <d>                => <y'> <m'> <d'> | PANIC  date_decode(date_encode(..))
+P time.time_rt <h> <mi> <s> <ms>          => <h'> <mi'> <s'> <ms'> | PANIC   time_decode(time_encode(..))   (created)
+P time.mtime_rt <h> <mi> <s> <ms>         => <h'> <mi'> <s'> <ms'> | PANIC   time_decode(time_encode(..).0, 0) (modified)
+P dirent.slot <hex> <alloc 0|1>           => F <end> <del> <reser hex32> <name hex11> <attrs> <isdir> <isvol> <size|none>
+                                               <fc16|none> <fc32|none> <cy> <cm> <cd> <ch> <cmi> <cs> <cms> <ay> <am> <ad>
+                                               <my> <mm> <md> <mh> <mmi> <ms> <mms> <short hex> <lower hex>
+                                           | L <end> <del> <reser hex32> <order> <checksum> <units hex 13×4>
+                                           | ERR <code>
+      (`<hex>` is normally 32 bytes; shorter inputs exercise the EOF paths.  `<alloc>` says whether the harness was built
+       with the `alloc` feature; without it `lower_display` is not computed and the token is `-`.)
+P dirent.set_times <hex> <c> <a> <m>      => <hex32> | none | PANIC
+      <c>, <m> = `none` or `y,mo,d,h,mi,s,ms` (comma separated, one token); <a> = `none` or `y,mo,d`.
+      `none` output: the slot is not a short entry (LFN slot or deserialisation error); checked before the constructors run.
+P dirent.short_eq <hex11> <name hex utf8> => 0 | 1                   ShortName::new(raw).eq_ignore_case(name, Lossy)
+      handled only when every code point of `name` is ASCII or U+FFFD (on these `char::to_uppercase` and
+      `to_ascii_uppercase` agree, so the answer does not depend on the `unicode` feature); other names → not handled here.
+```
+
+Oracles (C18), evaluated on the implementation's output only:
+`date-roundtrip` (exact), `time-roundtrip` (10 ms), `mtime-roundtrip` (2 s, millis 0), `date-pack`/`date-unpack`/
+`time-pack`/`time-unpack` (the FAT specification's bit layout written as plain arithmetic), `new-range` (the constructors
+panic exactly outside the documented ranges), `slot-reserialize` (read + write back changes at most bits 6–7 of byte 11),
+`set-times-frame` (only bytes 13–17 / 18–19 / 22–25 change), `set-times-readback` (stored stamps decode to the rounded input).
+-/
 namespace FatVerif.TimeDriver
+open FatVerif.Util
 
-def handle (_fn : String) (_args : List String) : Option String := none
+def nats (args : List String) : Option (List Nat) := args.mapM natOf
 
-def oracle (_fn : String) (_args : List String) (_implOut : List String) : Option String := none
+def showNats (l : List Nat) : String := " ".intercalate (l.map toString)
 
-def branch (_fn : String) (_args : List String) : String := "-"
+def dateL (d : Date) : List Nat := [d.year, d.month, d.day]
+def timeL (t : Time) : List Nat := [t.hour, t.min, t.sec, t.millis]
+def dtL (dt : DateTime) : List Nat := dateL dt.date ++ timeL dt.time
+
+def commaNats (s : String) : Option (List Nat) := (s.splitOn ",").mapM natOf
+
+/-- `none` / `y,mo,d,h,mi,s,ms` → outer `none` = parse error; inner: absent | constructor outcome -/
+def parseDT (s : String) : Option (Option (Option DateTime)) :=
+  if s = "none" then some none else
+  match commaNats s with
+  | some [y, mo, d, h, mi, sec, ms] => some (some (DateTime.new? y mo d h mi sec ms))
+  | _ => none
+
+def parseD (s : String) : Option (Option (Option Date)) :=
+  if s = "none" then some none else
+  match commaNats s with
+  | some [y, mo, d] => some (some (Date.new? y mo d))
+  | _ => none
+
+/-! ### model answers -/
+
+def slotFile (f : DirFileEntryData) (alloc : Bool) : List String :=
+  [hexOfBytes f.name, toString f.attrs, showBool f.isDir, showBool f.isVolume, showOptNat f.size?,
+   showOptNat (f.firstCluster .fat16), showOptNat (f.firstCluster .fat32)] ++
+  (dtL f.created ++ dateL f.accessed ++ dtL f.modified).map toString ++
+  [hexOfBytes (shortDisplay f.name), if alloc then hexOfBytes f.lowercaseName.asBytes else "-"]
+
+def slotOut (bs : List Nat) (alloc : Bool) : String :=
+  match DirEntryData.deserializeStream bs with
+  | .error e => s!"ERR {e.code}"
+  | .ok e =>
+    let common := [showBool e.isEnd, showBool e.isDeleted, hexOfBytes e.serialize]
+    match e with
+    | .file f => " ".intercalate ("F" :: common ++ slotFile f alloc)
+    | .lfn l => " ".intercalate ("L" :: common ++ [toString l.order, toString l.checksum, hexOfUnits l.units])
+
+/-- apply one optional setter; `none` = the constructor panicked -/
+def applyOpt {α β : Type} (x : Option (Option α)) (f : β → α → β) (e : β) : Option β :=
+  match x with
+  | none => some e
+  | some none => none
+  | some (some v) => some (f e v)
+
+def setTimesOut (bs : List Nat) (c : Option (Option DateTime)) (a : Option (Option Date))
+    (m : Option (Option DateTime)) : String :=
+  match DirEntryData.deserializeStream bs with
+  | .ok (.file f) =>
+    match (applyOpt c DirFileEntryData.setCreated f).bind fun f1 =>
+          (applyOpt a DirFileEntryData.setAccessed f1).bind fun f2 =>
+          applyOpt m DirFileEntryData.setModified f2 with
+    | some f3 => hexOfBytes f3.serialize
+    | none => "PANIC"
+  | _ => "none"
+
+def codepointOk (c : Nat) : Bool := c < 128 || c == 0xFFFD
+
+def shortEqOut (raw : List Nat) (name : String) : Option String :=
+  let cps := name.toList.map Char.toNat
+  if cps.all codepointOk then
+    some (showBool ((ShortName.new raw).eqIgnoreCase (fun c => [ShortName.asciiUpper c]) cps))
+  else none
+
+def handle (fn : String) (args : List String) : Option String :=
+  match fn with
+  | "time.date_encode" =>
+    match nats args with
+    | some [y, m, d] => some (match Date.new? y m d with | some dt => toString dt.encode | none => "PANIC")
+    | _ => none
+  | "time.date_decode" =>
+    match nats args with
+    | some [raw] => some (showNats (dateL (Date.decode raw)))
+    | _ => none
+  | "time.time_encode" =>
+    match nats args with
+    | some [h, mi, s, ms] =>
+      some (match Time.new? h mi s ms with | some t => showNats [t.encodeLo, t.encodeHi] | none => "PANIC")
+    | _ => none
+  | "time.time_decode" =>
+    match nats args with
+    | some [raw, hi] => some (showNats (timeL (Time.decode raw hi)))
+    | _ => none
+  | "time.date_rt" =>
+    match nats args with
+    | some [y, m, d] =>
+      some (match Date.new? y m d with | some dt => showNats (dateL (Date.decode dt.encode)) | none => "PANIC")
+    | _ => none
+  | "time.time_rt" =>
+    match nats args with
+    | some [h, mi, s, ms] =>
+      some (match Time.new? h mi s ms with
+            | some t => showNats (timeL (Time.decode t.encodeLo t.encodeHi)) | none => "PANIC")
+    | _ => none
+  | "time.mtime_rt" =>
+    match nats args with
+    | some [h, mi, s, ms] =>
+      some (match Time.new? h mi s ms with
+            | some t => showNats (timeL (Time.decode t.encodeLo 0)) | none => "PANIC")
+    | _ => none
+  | "dirent.slot" =>
+    match args with
+    | [hex, alloc] =>
+      match bytesOfHex hex, boolOf alloc with
+      | some bs, some al => some (slotOut bs al)
+      | _, _ => none
+    | _ => none
+  | "dirent.set_times" =>
+    match args with
+    | [hex, c, a, m] =>
+      match bytesOfHex hex, parseDT c, parseD a, parseDT m with
+      | some bs, some c, some a, some m => some (setTimesOut bs c a m)
+      | _, _, _, _ => none
+    | _ => none
+  | "dirent.short_eq" =>
+    match args with
+    | [rawHex, nameHex] =>
+      match bytesOfHex rawHex, (bytesOfHex nameHex).bind stringOfUtf8 with
+      | some raw, some name => shortEqOut raw name
+      | _, _ => none
+    | _ => none
+  | _ => none
+
+/-! ### oracles: the property, evaluated on the implementation's answer -/
+
+def dateOk (y m d : Nat) : Bool := 1980 ≤ y && y ≤ 2107 && 1 ≤ m && m ≤ 12 && 1 ≤ d && d ≤ 31
+def timeOk (h mi s ms : Nat) : Bool := h ≤ 23 && mi ≤ 59 && s ≤ 59 && ms ≤ 999
+
+/-- expect `want` (or PANIC exactly when out of range) -/
+def expect (sig : String) (inRange : Bool) (args : List String) (want : List Nat) (implOut : List String) :
+    Option String :=
+  let a := " ".intercalate args
+  let o := " ".intercalate implOut
+  if inRange then
+    if implOut = want.map toString then none else some s!"C18 {sig} {a} -> {o} want {showNats want}"
+  else if implOut = ["PANIC"] then none else some s!"C18 new-range {a} -> {o} want PANIC"
+
+/-- bytes of the slot that a `set_times` call may change -/
+def allowedBytes (c a m : Bool) : List Nat :=
+  (if c then [13, 14, 15, 16, 17] else []) ++ (if a then [18, 19] else []) ++ (if m then [22, 23, 24, 25] else [])
+
+def frameViolation (inp out : List Nat) (allowed : List Nat) : Option Nat :=
+  (List.range 32).find? fun i =>
+    !allowed.contains i && out.getD i 0 != (if i = 11 then inp.getD i 0 % 64 else inp.getD i 0)
+
+def argDT (s : String) : Option (List Nat) := if s = "none" then none else commaNats s
+
+def setTimesOracle (inp : List Nat) (c a m : String) (out : List Nat) : Option String :=
+  let allowed := allowedBytes (c != "none") (a != "none") (m != "none")
+  match frameViolation inp out allowed with
+  | some i => some s!"C18 set-times-frame byte{i}"
+  | none =>
+    let u16 := fun i => out.getD i 0 + 256 * out.getD (i + 1) 0
+    let cBad := match argDT c with
+      | some [y, mo, d, h, mi, s, ms] =>
+        -- spec unpacking, written independently of the model
+        let dte := u16 16; let tm := u16 14; let hi := out.getD 13 0
+        [dte / 512 + 1980, dte / 32 % 16, dte % 32, tm / 2048, tm / 32 % 64, tm % 32 * 2 + hi / 100, hi % 100 * 10]
+          != [y, mo, d, h, mi, s, ms / 10 * 10]
+      | _ => false
+    let aBad := match argDT a with
+      | some [y, mo, d] => let dte := u16 18; [dte / 512 + 1980, dte / 32 % 16, dte % 32] != [y, mo, d]
+      | _ => false
+    let mBad := match argDT m with
+      | some [y, mo, d, h, mi, s, _] =>
+        let dte := u16 24; let tm := u16 22
+        [dte / 512 + 1980, dte / 32 % 16, dte % 32, tm / 2048, tm / 32 % 64, tm % 32 * 2]
+          != [y, mo, d, h, mi, s / 2 * 2]
+      | _ => false
+    if cBad then some "C18 set-times-readback created"
+    else if aBad then some "C18 set-times-readback accessed"
+    else if mBad then some "C18 set-times-readback modified"
+    else none
+
+def oracle (fn : String) (args : List String) (implOut : List String) : Option String :=
+  match fn with
+  | "time.date_rt" =>
+    match nats args with
+    | some [y, m, d] => expect "date-roundtrip" (dateOk y m d) args [y, m, d] implOut
+    | _ => none
+  | "time.time_rt" =>
+    match nats args with
+    | some [h, mi, s, ms] => expect "time-roundtrip" (timeOk h mi s ms) args [h, mi, s, ms / 10 * 10] implOut
+    | _ => none
+  | "time.mtime_rt" =>
+    match nats args with
+    | some [h, mi, s, ms] => expect "mtime-roundtrip" (timeOk h mi s ms) args [h, mi, s / 2 * 2, 0] implOut
+    | _ => none
+  | "time.date_encode" =>
+    match nats args with
+    | some [y, m, d] => expect "date-pack" (dateOk y m d) args [(y - 1980) * 512 + m * 32 + d] implOut
+    | _ => none
+  | "time.date_decode" =>
+    match nats args with
+    | some [raw] => expect "date-unpack" true args [raw / 512 + 1980, raw / 32 % 16, raw % 32] implOut
+    | _ => none
+  | "time.time_encode" =>
+    match nats args with
+    | some [h, mi, s, ms] =>
+      expect "time-pack" (timeOk h mi s ms) args [h * 2048 + mi * 32 + s / 2, s % 2 * 100 + ms / 10] implOut
+    | _ => none
+  | "time.time_decode" =>
+    match nats args with
+    | some [raw, hi] =>
+      expect "time-unpack" true args [raw / 2048, raw / 32 % 64, raw % 32 * 2 + hi / 100, hi % 100 * 10] implOut
+    | _ => none
+  | "dirent.slot" =>
+    match args, implOut with
+    | hex :: _, _ :: _ :: _ :: reser :: _ =>
+      match bytesOfHex hex, bytesOfHex reser with
+      | some inp, some out =>
+        if inp.length = 32 then
+          match frameViolation inp out [] with
+          | some i => some s!"C18 slot-reserialize byte{i}"
+          | none => if out.length = 32 then none else some "C18 slot-reserialize length"
+        else none
+      | _, _ => none
+    | _, _ => none
+  | "dirent.set_times" =>
+    match args, implOut with
+    | [hex, c, a, m], [outHex] =>
+      if outHex = "none" || outHex = "PANIC" then none else
+      match bytesOfHex hex, bytesOfHex outHex with
+      | some inp, some out =>
+        if inp.length = 32 then
+          if out.length = 32 then setTimesOracle inp c a m out else some "C18 set-times-frame length"
+        else none
+      | _, _ => none
+    | _, _ => none
+  | _ => none
+
+/-! ### branch labels -/
+
+def dateBranch (y m d : Nat) : String :=
+  if y < 1980 then "panic-year-lo" else if y > 2107 then "panic-year-hi"
+  else if m < 1 then "panic-month-lo" else if m > 12 then "panic-month-hi"
+  else if d < 1 then "panic-day-lo" else if d > 31 then "panic-day-hi" else "ok"
+
+def timeBranch (h mi s ms : Nat) : String :=
+  if h > 23 then "panic-hour" else if mi > 59 then "panic-min" else if s > 59 then "panic-sec"
+  else if ms > 999 then "panic-millis"
+  else (if s % 2 = 1 then "odd" else "even") ++ (if ms % 10 = 0 then "-ms10" else "-msfrac")
+
+def slotBranch (bs : List Nat) : String :=
+  if bs.length < 11 then "short-eof-end" else if bs.length < 32 then "short-eof-err" else
+  match DirEntryData.deserialize (bs.take 32) with
+  | .lfn l => if l.isEnd then "lfn-end" else if l.isDeleted then "lfn-deleted" else "lfn"
+  | .file f =>
+    (if f.isEnd then "file-end" else if f.isDeleted then "file-deleted"
+     else if f.isVolume then "file-volume" else if f.isDir then "file-dir" else "file") ++
+    (if bs.getD 11 0 ≥ 64 then "-attrtrunc" else "") ++
+    (if f.name.getD 0 0 = 5 then "-05" else "") ++
+    (if f.lowercaseBasename || f.lowercaseExt then "-lc" else "")
+
+def branch (fn : String) (args : List String) : String :=
+  match fn with
+  | "time.date_encode" | "time.date_rt" =>
+    match nats args with
+    | some [y, m, d] => dateBranch y m d
+    | _ => "-"
+  | "time.date_decode" =>
+    match nats args with
+    | some [raw] =>
+      let d := Date.decode raw
+      if d.month = 0 then "month0" else if d.month > 12 then "month>12" else if d.day = 0 then "day0" else "valid"
+    | _ => "-"
+  | "time.time_encode" | "time.time_rt" | "time.mtime_rt" =>
+    match nats args with
+    | some [h, mi, s, ms] => timeBranch h mi s ms
+    | _ => "-"
+  | "time.time_decode" =>
+    match nats args with
+    | some [raw, hi] =>
+      let t := Time.decode raw hi
+      (if t.hour > 23 then "hour>23" else if t.min > 59 then "min>59" else if t.sec > 59 then "sec>59" else "valid") ++
+      (if hi ≥ 200 then "-hi>=200" else if hi ≥ 100 then "-hi>=100" else "-hi<100")
+    | _ => "-"
+  | "dirent.slot" =>
+    match args with
+    | hex :: _ => match bytesOfHex hex with | some bs => slotBranch bs | none => "-"
+    | _ => "-"
+  | "dirent.set_times" =>
+    match args with
+    | [hex, c, a, m] =>
+      let f := fun (s : String) (l : String) => if s = "none" then "" else l
+      let kind := match bytesOfHex hex with | some bs => slotBranch bs | none => "-"
+      let res := match handle fn args with | some "PANIC" => "panic" | some "none" => "none" | _ => "ok"
+      (if kind.startsWith "file" then "file" else kind) ++ ":" ++ f c "c" ++ f a "a" ++ f m "m" ++ ":" ++ res
+    | _ => "-"
+  | "dirent.short_eq" =>
+    match handle fn args with | some "1" => "eq" | some "0" => "ne" | _ => "-"
+  | _ => "-"
 
 end FatVerif.TimeDriver
